@@ -3,6 +3,21 @@
 import json, os, sys
 ROOT = os.path.dirname(os.path.dirname(os.path.abspath(__file__)))
 
+# additions made after the fourth / fifth seeded rounds (appended to the level texts above)
+EXTRA = {
+ "C05": " BlackJAXSMC (its own copy of the target, evaluated under vmap/scan) runs through a jax-written random-walk stand-in for the absent blackjax with a jax-traceable twin of the model and proposal: every start position and every (z, value) the kernel evaluates is exported through jax.debug.callback, the finished kernel's function is probed eagerly before the next refit, and all points are judged by the same closed-form oracle.",
+ "C08": " The returned evidence is also recomputed by definition from the stored populations and their own temperatures (independent of the recorded series), on reference and resumed runs incl. the live-dictionary route; a few BlackJAXSMC runs (stand-in blackjax) get the same oracles.",
+ "C09": " The generator seam also records how each draw was requested: draws must be with replacement, in every run and in the adversarial resamples (incl. fewer draws than particles).",
+ "C10": " A few BlackJAXSMC runs (stand-in blackjax) are recomputed the same way.",
+ "C13": " A third of the saved histories hold 10-14 populations (ordering of numbered groups).",
+ "C14": " Sampling and resume-from-file-then-sample also use the OTHER SMC sampler (emcee SMC), named at resume_from_file or at sample_posterior; the verdict carries the history (crashed? on a resumed instance?) so that the one known finding is matched narrowly.",
+ "C16": " Selectors include negative-step slices with and without bounds (numpy, jax).",
+ "C18": " A few BlackJAXSMC runs (stand-in blackjax) get the same history oracle.",
+ "C19": " Context managers are also built first and entered later (two handlers made up front, then nested) and a close_pool=False handler is entered a second time: 'on entry' is the with-statement, not the constructor.",
+ "C20": " BlackJAXSMC (stand-in blackjax) is run twice with the same jax key and generator seed (bit-identical) and once with another key (must differ).",
+}
+
+
 def cmd(pid, tier):
     return f"cd /verif && timeout 3300 /venv/bin/python -m sim.cli check {pid} --tier {tier}"
 
@@ -31,7 +46,7 @@ CHECKS.update({
    note="Stub kernel/proposal/model. Bit equality is demanded between twin runs of one seed; value equality vs the float64 model uses dtype-scaled tolerances."),
  "C10": dict(level="exploration", ref="DESIGN.md section 4 C10", technique="deterministic simulation: recomputation oracle over every population of whole runs (all samplers), proposal-seam pairing check, crash/resume included",
    text="With deterministic model and proposal owned by the simulator, coherence of cached log-densities is decided by recomputation on every population a run returns, records or checkpoints (importance, minipcn MCMC, emcee MCMC, minipcn SMC, emcee SMC; all namespaces/dtypes; before and after crash/resume); the initial population is matched row by row against what the proposal actually drew, with proposals wider than the prior so the draw-reject-concatenate-trim loop runs.",
-   note="Stub kernels/proposal/model; blackjax not run. float32 tolerance for log_q of drawn rows is sensitivity-aware (one float32 ulp of x)."),
+   note="Stub kernels/proposal/model (blackjax: random-walk stand-in only). float32 tolerance for log_q of drawn rows is sensitivity-aware (one float32 ulp of x)."),
  "C17": dict(level="exploration", ref="DESIGN.md section 4 C17", technique="deterministic simulation: temporal invariant evaluated at call time inside the user's likelihood (model seam), all samplers, pool-mapped calls, crash/resume",
    text="The instrumented likelihood asserts at every call of every simulated process that the sample set carries the log-prior of exactly those points and that each point was passed to the prior earlier in the trace; at process end the reported evaluation counter must equal the sum of batch sizes. Runs cover every sampler, preconditioning, namespace, FakePool-mapped calls and resumed runs.",
    note="Stub kernels/proposal; blackjax call sites not run."),
@@ -109,7 +124,7 @@ def main():
             "evidence_file": f"/verif/evidence/{pid}.json",
             "replay_cmd_template": "cd /verif && /venv/bin/python -m sim.cli replay {path}",
             "engine": c.get("engine", "run-engine"),
-            "level_claimed": {"category": c["level"], "text": c["text"], "design_ref": c["ref"]},
+            "level_claimed": {"category": c["level"], "text": c["text"] + EXTRA.get(pid, ""), "design_ref": c["ref"]},
             "level_note": c["note"],
             "technique": c["technique"],
         })
